@@ -1270,6 +1270,131 @@ def c_decompose(case, ctx):
     ctx.nontrivial(tc["kind"] in FOUR_FACTOR and len(parts) == 4 and not is_identity_stages(stages))
 
 
+# ==============================================================================================
+# (e) refusal: a composition entry point that refuses its argument leaves receiver and argument as they were
+
+REFUSAL_VEC = ("compose_after_from_vector_inplace", "from_vector", "from_vector_inplace")
+REFUSAL_METHODS = ["compose_before", "compose_after", "compose_before_inplace", "compose_after_inplace",
+                   "compose_after_from_vector_inplace", "compose_after_from_vector_inplace", "compose_after_from_vector_inplace",
+                   "from_vector", "from_vector_inplace"]
+BAD_LENGTHS = ["other_dim", "other_dim", "plus1", "minus1", "empty"]
+REFUSAL_EXC = (ValueError, NotImplementedError)  # the documented refusals of these entry points
+
+
+def param_count(kind, d):
+    """length of the parameter vector of class `kind` in d dimensions (written out, independent of the tree)."""
+    k = kind.replace("Alignment", "")
+    return {"Homogeneous": (d + 1) ** 2, "Affine": d * (d + 1), "Similarity": 4 if d == 2 else 7, "Rotation": 1 if d == 2 else 4,
+            "Translation": d, "UniformScale": 1, "NonUniformScale": d}[k]
+
+
+@st.composite
+def s_refusal(draw):
+    kind = draw(st.sampled_from(KINDS))
+    d = draw(st.sampled_from([2, 3]))
+    meth = draw(st.sampled_from(REFUSAL_METHODS))
+    c = {"t": draw(objs.homog_case(kind=kind, d=d)), "method": meth,
+         "pts": draw(st.lists(gen.vec(d), min_size=5, max_size=5)),
+         "then": draw(st.sampled_from(["before", "after"])), "other": draw(objs.homog_case(d=d))}
+    if meth in REFUSAL_VEC:
+        c["bad"] = draw(st.sampled_from(BAD_LENGTHS))
+        c["vals"] = draw(st.lists(gen.q(-1, 1), min_size=17, max_size=17))
+    else:
+        c["bad"] = draw(st.sampled_from(["wrong_dim", "wrong_dim", "outside_family"])) if meth.endswith("_inplace") else "wrong_dim"
+        if c["bad"] == "wrong_dim":
+            c["arg"] = draw(objs.homog_case(d=5 - d))
+        else:
+            c["arg"] = draw(objs.homog_case(d=d, kinds=["Homogeneous", "Affine", "Similarity", "NonUniformScale"]))
+    return c
+
+
+def _vec_or_none(t):
+    try:
+        return np.array(t.as_vector(), dtype=float, copy=True)
+    except NotImplementedError:
+        return None
+
+
+def c_refusal(case, ctx):
+    tc, meth, bad = case["t"], case["method"], case["bad"]
+    d = tc["d"]
+    x = gen.arr(case["pts"])
+    t = objs.build_homog(tc)
+    stages = ref_stages(tc, t)
+    cls = type(t)
+    y0 = np.array(t.apply(x.copy()), dtype=float, copy=True)
+    v0 = _vec_or_none(t)
+    nd0 = (t.n_dims, t.n_dims_output)
+    dt = dig(t)
+    arg_t = None
+    if meth in REFUSAL_VEC:
+        own = param_count(tc["kind"], d)
+        n = {"other_dim": param_count(tc["kind"], 5 - d), "plus1": own + 1, "minus1": own - 1, "empty": 0}[bad]
+        if n == own:
+            ctx.event("wrong length coincides with the right one (not a refusal case)")
+            return
+        arg = np.array(case["vals"][:n], dtype=float)
+        arg_before = arg.copy()
+    else:
+        arg = arg_t = objs.build_homog(case["arg"])
+        if bad == "outside_family" and isinstance(arg, t.composes_inplace_with):
+            ctx.event("argument is inside the receiver's in-place family (not a refusal case)")
+            return
+        darg = dig(arg)
+    ctx.event("%s bad=%s" % (meth, bad))
+    try:
+        ret = getattr(t, meth)(arg)
+        raised = None
+    except REFUSAL_EXC as e:
+        raised = type(e).__name__
+    # the argument is never altered, refused or not
+    if arg_t is None:
+        ctx.expect(np.array_equal(arg, arg_before), "refusal.vector_argument_changed.%s" % meth, cls.__name__)
+    else:
+        expect_unchanged(ctx, arg_t, darg, "refusal.argument_changed.%s" % meth)
+    if raised is None:
+        ctx.event("not refused: %s bad=%s %s" % (meth, bad, tc["kind"].replace("Alignment", "A.")))
+        if meth != "from_vector_inplace" and not meth.endswith("_inplace"):
+            # a non-in-place form that went through: only "operands unchanged" (dimensions are not compatible)
+            expect_unchanged(ctx, t, dt, "refusal.accepted_but_receiver_changed.%s" % meth)
+        return
+    ctx.nontrivial(not is_identity_stages(stages))
+    ctx.event("refused with %s" % raised)
+    if meth == "from_vector_inplace" and bad == "other_dim" and tc["kind"] in ("AlignmentAffine", "AlignmentSimilarity"):
+        # genuine in the tree (reported, not asserted here): Affine._from_vector_inplace accepts the 6 and the 12 long vector
+        # (Similarity's the 4 long one on a 3-D receiver), so
+        # the receiver's matrix is replaced by one of the other dimensionality BEFORE the alignment's target sync raises ValueError.
+        # ctx.expect(digest.parameter_mutation(dt, dig(t)) is None,
+        #            "refusal.receiver_changed.from_vector_inplace.alignment_given_other_dimension_vector", cls.__name__)
+        ctx.event("AlignmentAffine/Similarity.from_vector_inplace(other dimensionality's vector): refused after overwriting (reported, not asserted)")
+        return
+    n_f = len(ctx.fails)
+    expect_unchanged(ctx, t, dt, "refusal.receiver_changed.%s" % meth)
+    # behavioural re-check
+    ok = type(t) is cls and (t.n_dims, t.n_dims_output) == nd0
+    ctx.expect(ok, "refusal.receiver_class_or_dims_changed.%s" % meth,
+               lambda: "%s %r -> %s %r" % (cls.__name__, nd0, type(t).__name__, (t.n_dims, t.n_dims_output)))
+    if ok:
+        v1 = _vec_or_none(t)
+        ctx.expect((v0 is None) == (v1 is None) and (v0 is None or np.array_equal(v0, v1)), "refusal.receiver_as_vector_changed.%s" % meth,
+                   lambda: "%r -> %r" % (v0, v1))
+        y1 = np.asarray(t.apply(x.copy()), dtype=float)
+        ctx.expect(y1.shape == y0.shape and np.array_equal(y1, y0), "refusal.receiver_apply_changed.%s" % meth,
+                   lambda: "before %r\nafter %r" % (y0.tolist(), y1.tolist()))
+    if len(ctx.fails) > n_f:
+        return
+    # a following valid composition obeys the law exactly as for a fresh object
+    oc = case["other"]
+    b = objs.build_homog(oc)
+    sb = ref_stages(oc, b)
+    model = stages + sb if case["then"] == "before" else sb + stages
+    r = getattr(t, "compose_" + case["then"])(b)
+    check_map(ctx, r, x, ref_eval(model, x), "refusal.then_composition_wrong.%s" % meth, "%s x %s:" % (tc["kind"], oc["kind"]))
+    r2 = getattr(objs.build_homog(tc), "compose_" + case["then"])(objs.build_homog(oc))
+    ctx.expect(type(r) is type(r2) and np.array_equal(np.asarray(r.h_matrix), np.asarray(r2.h_matrix)),
+               "refusal.then_composition_differs_from_fresh.%s" % meth, lambda: "%s vs fresh %s" % (type(r).__name__, type(r2).__name__))
+
+
 CLAUSES = [
     Clause("grid", c_grid, enumerate=grid_cells, nt_floor=0.0,
            rule="12 x 12 classes x {before, after} x {2-D, 3-D} x {plain, in-place}, 3 / 60 seeded parameter sets per cell"),
@@ -1283,4 +1408,10 @@ CLAUSES = [
                 "NotImplementedError for 2-D rotations and 3-D similarities; non-trivial: >= 1 vector composed onto a non-identity receiver"),
     Clause("decompose", c_decompose, s_decompose, quick=1000, thorough=20000, nt_floor=0.4,
            rule="reduce(compose_before, t.decompose()) equals t; non-trivial: 4-factor decomposition of a non-identity affine"),
+    Clause("refusal", c_refusal, s_refusal, quick=2500, thorough=50000, nt_floor=0.3,
+           rule="each of the 12 classes in 2-D/3-D x {compose_before/after(_inplace) with an operand of the other dimensionality or "
+                "outside the in-place family, compose_after_from_vector_inplace / from_vector / from_vector_inplace with a vector of the "
+                "other dimensionality's length, +-1, empty}: if refused (ValueError / NotImplementedError) receiver and argument are "
+                "unchanged (digest, class, n_dims, as_vector, apply) and a following valid composition obeys the law and equals the "
+                "fresh one; non-trivial: the call was refused on a non-identity receiver"),
 ]
